@@ -55,10 +55,7 @@ let () =
            let sufu = if not w then "nowf" else if float_of_string cost <= 3000000.0 && suf = "x" then
                (match constant_suffix p with None -> "none" | Some s -> hex s) else "same" in
            let buf = Buffer.create 1200 in
-           (* the acceptor walks every path: on programs with very many paths enumerate shorter strings only
-              (the enumeration is by length, so the result is a prefix of the full bitmap) *)
-           let c = float_of_string cost in
-           let la' = if c <= 3000.0 then int_of_string la else if c <= 100000.0 then min (int_of_string la) 4 else min (int_of_string la) 2 in
+           let la' = int_of_string la in
            if w then enum (nums alpha) la' (fun s -> Buffer.add_string buf (b2s (accepts_b p s)));
            Printf.fprintf oc "%s wf=%s sat=%s af=%s lenc=%s lenc0=%s lenu=%s suf=%s sufu=%s acc=%s\n" id (b2s w) (b2s (sat p))
              (b2s (assertion_free p)) lenc lenc0 lenu suf sufu (Buffer.contents buf);
